@@ -151,6 +151,7 @@ def run(ctx):
             check_list_eq_wire(ctx, m, g, kind)
             if m.kind == "contract":
                 check_wrapper(ctx, m, g, kind)
+    C.corpus_adequacy(ctx, enforce=False)
     ctx.floor("C03.b-deserialize", 90)
     ctx.floor("C03.d-list-eq-wire", 150)
     return check.finish(
